@@ -148,7 +148,7 @@ def ws(env):
     env.safe('defined', W)
 
 
-@obligation('C01.sim3_Exp', functions=[f'{OPS}:sim3_Exp.forward', f'{OPS}:rxso3_Ws', f'{OPS}:rxso3_Exp.forward'], max_paths=16)
+@obligation('C01.sim3_Exp', functions=[f'{OPS}:sim3_Exp.forward', f'{OPS}:rxso3_Ws', f'{OPS}:rxso3_Exp.forward'], max_paths=64, timeout=300)
 def sim3(env):
     op = env.load(OPS); T = env.T
     tau = env.vec('tau', 3); x = env.vec('x', 3, regimes=REG)
